@@ -1,5 +1,6 @@
 import GrVerif.Proofs.HeapStream3
 import GrVerif.Model.Pass
+import GrVerif.Proofs.Reverse
 /-!
 # The glyph stream through the whole pass engine
 
@@ -386,6 +387,24 @@ theorem runPass_spec (p : PassT) (c : Ctx) (fuel : Nat) (h : WF c.seg) {c' : Ctx
         obtain ⟨l', j'⟩ := ruleLoop_spec p _ _ s0 _ 0 j0 hr
         exact ⟨l', by rw [noteLoop_seg]; exact JO.linked j', by rw [noteLoop_seg]; exact JO.clean j', by rw [noteLoop_seg]; exact JO.alloc j'⟩
 
+/-- reversing the stream keeps it a stream -/
+theorem reverse_wf {s : Seg} (h : WF s) (mark : Nat → Bool) : WF (s.reverseSlots mark) := by
+  obtain ⟨l, hl, hc, ha⟩ := h
+  obtain ⟨l', _, h1, h2, h3⟩ := reverseSlots_wf hl hc ha mark
+  exact ⟨l', h1, h2, h3⟩
+
+/-- **a pass with its direction step keeps the stream** -/
+theorem runPassDir_spec (p : PassT) (c : Ctx) (fuel : Nat) (h : WF c.seg) {c' : Ctx} (e : runPassDir p c fuel = .ok (some c')) :
+    WF c'.seg := by
+  unfold runPassDir at e
+  split at e
+  · cases e; exact h
+  · simp only [] at e
+    refine runPass_spec p _ fuel ?_ e
+    split
+    · exact reverse_wf h _
+    · exact h
+
 /-- **a run of passes keeps the stream** -/
 theorem runRange_spec (passes : Array PassT) (c : Ctx) (lo hi fuel : Nat) (h : WF c.seg) {c' : Ctx}
     (e : runRange passes c lo hi fuel = .ok (some c')) : WF c'.seg := by
@@ -401,7 +420,7 @@ theorem runRange_spec (passes : Array PassT) (c : Ctx) (lo hi fuel : Nat) (h : W
       ∀ x, ks.foldl (fun (acc : Except String (Option Ctx)) k =>
         match acc with
         | .ok (some c1) =>
-          (match runPass (passes.getD (lo + k) default) c1 fuel with
+          (match runPassDir (passes.getD (lo + k) default) c1 fuel with
            | .ok (some c2) => if c2.seg.numGlyphs > 0 ∧ c2.seg.numGlyphs > c.seg.numGlyphs * 64 then .ok none else .ok (some c2)
            | o => o)
         | o => o) acc = .ok (some x) → WF x.seg := by
@@ -420,7 +439,7 @@ theorem runRange_spec (passes : Array PassT) (c : Ctx) (lo hi fuel : Nat) (h : W
           split at hy
           · cases hy
           · cases hy
-            exact runPass_spec _ c1 fuel (ha c1 rfl) hp
+            exact runPassDir_spec _ c1 fuel (ha c1 rfl) hp
         · rename_i o hno
           exact absurd hy (by
             intro hh
